@@ -8,6 +8,7 @@ import (
 	"math/rand"
 	"os"
 	"path/filepath"
+	"strconv"
 	"strings"
 	"sync"
 	"time"
@@ -37,6 +38,57 @@ type schedCase struct {
 	Failed  []int               `json:"failed"`
 	Size    int                 `json:"size"`  // bytes of arguments of the sized request (0: chosen from the matrix by the case's hash)
 	Chunk   int                 `json:"chunk"` // output chunk size announced before the first request (0: chosen likewise)
+	Ids     [][]json.RawMessage `json:"ids"`   // [[model id, "decimal AMF0 number"]]: the transaction ids on the wire (absent: the model's own)
+}
+
+// idmap relates the model's transaction ids (names of distinct transactions; their parity is the request type) to the
+// AMF0 numbers used on the wire. nil: the model's ids themselves.
+type idmap struct {
+	conc map[int]float64
+	abs  map[float64]int
+}
+
+func newIDMap(raw [][]json.RawMessage) *idmap {
+	if len(raw) == 0 {
+		return nil
+	}
+	m := &idmap{conc: map[int]float64{}, abs: map[float64]int{}}
+	for _, e := range raw {
+		var t int
+		var lit string
+		if len(e) != 2 || json.Unmarshal(e[0], &t) != nil || json.Unmarshal(e[1], &lit) != nil {
+			rp.Bug("malformed ids entry %s", e)
+		}
+		v, err := strconv.ParseFloat(lit, 64)
+		if err != nil || !(v > 0) || math.IsInf(v, 0) {
+			rp.Bug("transaction id %q: the library tracks finite ids > 0 only (%v)", lit, err)
+		}
+		if _, dup := m.abs[v]; dup {
+			rp.Bug("transaction id %q is not a distinct double", lit)
+		}
+		m.conc[t], m.abs[v] = v, t
+	}
+	return m
+}
+
+func (m *idmap) concrete(t int) float64 {
+	if m != nil {
+		if v, ok := m.conc[t]; ok {
+			return v
+		}
+	}
+	return float64(t)
+}
+
+func (m *idmap) abstract(tid float64) (int, bool) {
+	if m == nil {
+		if tid == math.Trunc(tid) && math.Abs(tid) < 1<<30 {
+			return int(tid), true
+		}
+		return 0, false
+	}
+	t, ok := m.abs[tid]
+	return t, ok
 }
 
 type outcome struct {
@@ -71,10 +123,13 @@ func sizedObject(size int) *amf0.Object {
 	return o
 }
 
-func sizedRequest(t, size int) rtmp.Packet {
+func sizedRequest(t, size int) rtmp.Packet { return sizedRequestID(t, float64(t), size) }
+
+// sizedRequestID: the request of model id t (its parity is the type) carrying the AMF0 number tid.
+func sizedRequestID(t int, tid float64, size int) rtmp.Packet {
 	if isConnect(t) {
 		p := rtmp.NewConnectAppPacket()
-		p.TransactionID = amf0.Number(float64(t))
+		p.TransactionID = amf0.Number(tid)
 		p.CommandObject.Set("tcUrl", amf0.NewString("rtmp://localhost/live"))
 		if size > 0 {
 			p.Args = sizedObject(size)
@@ -82,7 +137,7 @@ func sizedRequest(t, size int) rtmp.Packet {
 		return p
 	}
 	p := rtmp.NewCreateStreamPacket()
-	p.TransactionID = amf0.Number(float64(t))
+	p.TransactionID = amf0.Number(tid)
 	if size > 0 {
 		p.CommandObject = sizedObject(size)
 	}
@@ -91,19 +146,25 @@ func sizedRequest(t, size int) rtmp.Packet {
 
 func request(t int) rtmp.Packet { return sizedRequest(t, 0) }
 
-func response(t int) rtmp.Packet {
+func response(t int) rtmp.Packet { return responseID(t, float64(t)) }
+
+func responseID(t int, tid float64) rtmp.Packet {
 	if isConnect(t) {
-		p := rtmp.NewConnectAppResPacket(amf0.Number(float64(t)))
+		p := rtmp.NewConnectAppResPacket(amf0.Number(tid))
 		p.Args = amf0.NewObject()
 		p.Args.Set("code", amf0.NewString("NetConnection.Connect.Success"))
 		return p
 	}
-	p := rtmp.NewCreateStreamResPacket(amf0.Number(float64(t)))
+	p := rtmp.NewCreateStreamResPacket(amf0.Number(tid))
 	p.StreamID = 1
 	return p
 }
 
-func readOne(p *rtmp.Protocol) outcome {
+func readOne(p *rtmp.Protocol) outcome { return readOneIDs(p, nil) }
+
+// readOneIDs reads and decodes one response; "ok" = decoded without error as the response type of the request that
+// carries the response's transaction id, with that id.
+func readOneIDs(p *rtmp.Protocol, ids *idmap) outcome {
 	m, err := p.ReadMessage()
 	if err != nil {
 		return outcome{tid: math.NaN(), res: "readerr", err: err}
@@ -113,13 +174,14 @@ func readOne(p *rtmp.Protocol) outcome {
 	if err != nil {
 		return outcome{tid: tid, res: "fail", err: err}
 	}
+	t, known := ids.abstract(tid)
 	switch r := pkt.(type) {
 	case *rtmp.CreateStreamResPacket:
-		if !isConnect(int(tid)) && float64(r.TransactionID) == tid {
+		if known && !isConnect(t) && float64(r.TransactionID) == tid {
 			return outcome{tid: tid, res: "ok"}
 		}
 	case *rtmp.ConnectAppResPacket:
-		if isConnect(int(tid)) && float64(r.TransactionID) == tid {
+		if known && isConnect(t) && float64(r.TransactionID) == tid {
 			return outcome{tid: tid, res: "ok"}
 		}
 	}
@@ -208,6 +270,7 @@ func init() {
 		if chunk == 0 {
 			chunk = matrixChunks[(h/len(matrixSizes))%len(matrixChunks)]
 		}
+		ids := newIDMap(cs.Ids)
 		partsOf := map[int][]int{} // id -> parts of the requests using it, in order
 		for k, t := range cs.Reqs {
 			n := 1
@@ -225,7 +288,13 @@ func init() {
 		tr := newTracker()
 		arrive, release, wcmd, wret := w.arrive, w.release, w.wcmd, w.wret
 		a.Out.WriteGate = func(call int, p []byte) error {
-			arrive <- arrival{call: call, n: len(p), complete: tr.completedRequests(p)}
+			var complete []int
+			for _, tid := range tr.completedTids(p) {
+				if t, ok := ids.abstract(tid); ok {
+					complete = append(complete, t)
+				}
+			}
+			arrive <- arrival{call: call, n: len(p), complete: complete}
 			return <-release // nil, or the transport's error for a write the schedule makes fail
 		}
 		injected := &transport.ErrInjected{What: "transport write of a request"}
@@ -238,7 +307,7 @@ func init() {
 		rret := make(chan outcome, 16)
 		go func() {
 			for range rcmd {
-				rret <- readOne(pa)
+				rret <- readOneIDs(pa, ids)
 			}
 		}()
 		defer func() {
@@ -255,7 +324,14 @@ func init() {
 		}()
 
 		where := func(k int) string {
-			return fmt.Sprintf("step %d of schedule %s(output chunk size %d, sized requests carry %d bytes of arguments)", k, compact(cs.Sched[:k+1]), chunk, size)
+			idnote := ""
+			if ids != nil {
+				idnote = "; transaction ids on the wire:"
+				for _, t := range cs.Reqs {
+					idnote += fmt.Sprintf(" %d=%s", t, strconv.FormatFloat(ids.concrete(t), 'g', -1, 64))
+				}
+			}
+			return fmt.Sprintf("step %d of schedule %s(output chunk size %d, sized requests carry %d bytes of arguments%s)", k, compact(cs.Sched[:k+1]), chunk, size, idnote)
 		}
 		// history: the output chunk size in force
 		if chunk != 128 {
@@ -289,7 +365,7 @@ func init() {
 				}
 				w.parked, w.complete, w.writes, w.bytes = false, false, 0, 0
 				failing, returned, retErr = false, false, nil
-				w.wcmd <- sizedRequest(t, sz)
+				w.wcmd <- sizedRequestID(t, ids.concrete(t), sz)
 			case "register":
 				// not observable: the code cannot be paused between marshal, register and the first transport write
 			case "twrite":
@@ -358,7 +434,7 @@ func init() {
 					return rp.Fail(i, "%s: WritePacket(tid %d) failed: %v", where(k), t, retErr)
 				}
 			case "respond":
-				if err := peer.WritePacket(response(t), 0); err != nil {
+				if err := peer.WritePacket(responseID(t, ids.concrete(t)), 0); err != nil {
 					rp.Bug("peer write failed: %v", err)
 				}
 			case "read":
@@ -375,7 +451,7 @@ func init() {
 				json.Unmarshal(cs.Results[nres][0], &wt)
 				json.Unmarshal(cs.Results[nres][1], &wres)
 				nres++
-				if got.tid != float64(wt) {
+				if got.tid != ids.concrete(wt) {
 					return rp.Fail(i, "%s: reader got response for tid %v, schedule says %d", where(k), got.tid, wt)
 				}
 				if got.res != wres {
@@ -392,7 +468,7 @@ func init() {
 		for _, t := range tids {
 			stale := false
 			for _, f := range cs.Failed {
-				stale = stale || float64(f) == t
+				stale = stale || ids.concrete(f) == t
 			}
 			if !stale {
 				return rp.Fail(i, "after the schedule request %v is still outstanding, specification says none", t)
